@@ -5,6 +5,9 @@ set -u
 cd "$(dirname "$0")"
 export GOFLAGS=-mod=mod GOPROXY=off GOSUMDB=off GOTOOLCHAIN=local
 export VERIF_DIR="$(pwd)"
+# the driver itself is built with -race for some checks: a race inside the driver must not
+# turn into exit status 66 (children and memproxy get their own GORACE settings)
+export GORACE="exitcode=0"
 SCRATCH="$(mktemp -d /tmp/verif-XXXXXX)"
 export VERIF_SCRATCH="$SCRATCH"
 trap 'rm -rf "$SCRATCH"' EXIT
